@@ -662,11 +662,11 @@ fn clean_memoryref(arg: RawArg) -> Result<CleanArg, Option<String>> {
             // merge disps [a, b, c] into (a + b + c)
             let scaled_disp = serialize::expr_add_many(span, disps.into_iter().map(delimited));
 
-            // scale disps (a + b + c) * size_of<scale> as disp_size
-            let scaled_disp = scaled_disp.map(|disp| serialize::expr_size_of_scale(&scale, &disp, true_disp_size));
+            // scale disps (a + b + c) * size_of<scale>
+            let scaled_disp = scaled_disp.map(|disp| serialize::expr_size_of_scale(&scale, &disp));
 
-            // attribute displacement offset_of(scale, attr) as disp_size
-            let attr_disp = attribute.map(|attr| serialize::expr_offset_of(&scale, &attr, true_disp_size));
+            // attribute displacement offset_of(scale, attr)
+            let attr_disp = attribute.map(|attr| serialize::expr_offset_of(&scale, &attr));
 
             // add displacement sources together
             let disp = if let Some(scaled_disp) = scaled_disp {
@@ -678,6 +678,9 @@ fn clean_memoryref(arg: RawArg) -> Result<CleanArg, Option<String>> {
             } else {
                 attr_disp
             };
+
+            // the sum is calculated as an i64, and has to fit in disp_size
+            let disp = disp.map(|d| serialize::expr_checked_cast(&d, true_disp_size));
 
             let disp = disp.map(|d| serialize::reparse(&d).expect("Invalid expression generated internally"));
 
